@@ -3,7 +3,7 @@
 set -e
 x=$1
 cd /verif
-git merge --no-edit -X theirs $x 2>&1 | tail -3 || { echo "MERGE CONFLICT"; git status --short | head -20; exit 1; }
+git merge --no-edit $x 2>&1 | tail -3 || { echo "MERGE CONFLICT"; git status --short | head -20; exit 1; }
 # repo commits (skip merge commits and commits already on main by patch-id)
 cd /repo
 for c in $(git rev-list --reverse --no-merges main..verif-$x 2>/dev/null); do
